@@ -24,6 +24,7 @@ type Env struct {
 	cur    *State
 	old    *State
 	specBody bool
+	qdepth   int
 }
 
 func (env *Env) child() *Env {
@@ -254,6 +255,7 @@ func (env *Env) tr(e Expr) TV {
 		return env.call(e)
 	case *EQuant:
 		ch := env.child()
+		ch.qdepth++
 		var vs []string
 		for _, v := range e.Vars {
 			T, s := fc.resolveType(v.Type, env.tpkg)
@@ -684,4 +686,26 @@ func (env *Env) addrOfField(e *ESel) TV {
 		T = st.Field(fi).Type()
 	}
 	return TV{t, "Int", types.NewPointer(T)}
+}
+
+// trAssume translates a formula that is going to be ASSUMED: positive top-level existentials (also under &&) are
+// skolemised into fresh constants, which the solvers handle far better than an asserted (exists ...).
+func (env *Env) trAssume(e Expr) string {
+	switch x := e.(type) {
+	case *EBinary:
+		if x.Op == "&&" {
+			return fmt.Sprintf("(and %s %s)", env.trAssume(x.X), env.trAssume(x.Y))
+		}
+	case *EQuant:
+		if !x.Forall {
+			ch := env.child()
+			for _, v := range x.Vars {
+				T, s := env.fc.resolveType(v.Type, env.tpkg)
+				c := env.fc.freshConst("sk_"+v.Name, s)
+				ch.names[v.Name] = TV{c, s, T}
+			}
+			return ch.trAssume(x.Body)
+		}
+	}
+	return env.tr(e).T
 }
